@@ -97,18 +97,9 @@ func runGoStd(a vh.Args, o *vh.Oracle, r *vh.Result, rng *vh.Rand, n int) error 
 		return nil
 	}
 	one := func(s string) error {
-		h := hexArg(s)
-		if err := cmp("gopath.clean", hexArg(path.Clean(s)), h); err != nil {
-			return err
-		}
-		if err := cmp("gopath.base", hexArg(path.Base(s)), h); err != nil {
-			return err
-		}
-		if err := cmp("gopath.dir", hexArg(path.Dir(s)), h); err != nil {
-			return err
-		}
+		// Clean, Base, Dir, Split in one oracle round trip
 		d, f := path.Split(s)
-		return cmp("gopath.split", hexArg(d)+" "+hexArg(f), h)
+		return cmp("gopath.all", strings.Join([]string{hexArg(path.Clean(s)), hexArg(path.Base(s)), hexArg(path.Dir(s)), hexArg(d), hexArg(f)}, " "), hexArg(s))
 	}
 	total := 0
 	for _, s := range gostdFixed {
